@@ -392,7 +392,7 @@ theorem placeFiles_gram : ∀ (fis : List FileI) (off : Nat) (acc : Bytes),
 /-! ### the padded list is a well-formed file area -/
 
 theorem wfFiles_intro (off len : Nat) (f : FileI) (fs : List FileI) (h1 : wfFile f = true)
-    (h2 : alignUp off 8 + 24 < len) (h3 : alignUp off 8 + sizeFile f ≤ len)
+    (h2 : alignUp off 8 + 24 ≤ len) (h3 : alignUp off 8 + sizeFile f ≤ len)
     (h4 : (alignUp off 8 + hdrLenOfAttrs (storedAttrs f)) % alignmentOf (storedAttrs f) = 0)
     (h5 : wfFiles (alignUp off 8 + sizeFile f) len fs = true) : wfFiles off len (f :: fs) = true := by
   simp only [wfFiles, Bool.and_eq_true, decide_eq_true_eq, beq_iff_eq]
